@@ -167,3 +167,134 @@ impl Prop for HugeDiff {
         Ok(())
     }
 }
+
+// ------------------------------------------------------------------------------------------------
+// records larger than a buffer of 64 KiB or more, with a chosen structural byte (line terminators, the separator)
+// placed on the last bytes of the buffer at the moment it is full - at the initial capacity or after 1..2 doublings
+
+#[derive(Clone, Debug, Serialize, Deserialize, Hash)]
+pub struct AlignedCase {
+    pub format: Format,
+    pub cap: usize,
+    /// the buffer size at which the boundary is placed: cap << doublings
+    pub doublings: u8,
+    /// which byte of the long record: 0 = CR/LF ending the sequence line (FASTA: the only line), 1 = the '+',
+    /// 2 = terminator of the separator line, 3 = terminator of the quality line, 4 = terminator of the header line
+    pub boundary: u8,
+    /// placed at buffer index size - 1 + delta
+    pub delta: i8,
+    pub crlf: bool,
+    /// small records in front of / behind the long one
+    pub before: u8,
+    pub after: u8,
+    pub chunk: u16,
+    pub sets: bool,
+}
+
+pub fn aligned_doc(c: &AlignedCase) -> Vec<u8> {
+    let t: &[u8] = if c.crlf { b"\r\n" } else { b"\n" };
+    let size = c.cap << c.doublings.min(3);
+    let target = (size as i64 - 1 + c.delta as i64).max(40) as usize;
+    let small = |v: &mut Vec<u8>, i: usize| {
+        let seq: Vec<u8> = (0..5 + i).map(|k| b"ACGT"[(k + i) & 3]).collect();
+        match c.format {
+            Format::Fasta => {
+                v.extend_from_slice(format!(">s{}", i).as_bytes());
+                v.extend_from_slice(t);
+                v.extend_from_slice(&seq);
+                v.extend_from_slice(t);
+            }
+            Format::Fastq => {
+                v.extend_from_slice(format!("@s{}", i).as_bytes());
+                v.extend_from_slice(t);
+                v.extend_from_slice(&seq);
+                v.extend_from_slice(t);
+                v.push(b'+');
+                v.extend_from_slice(t);
+                v.resize(v.len() + seq.len(), b'I');
+                v.extend_from_slice(t);
+            }
+        }
+    };
+    // the long record: `id_len` and `seq_len` are solved so that the chosen byte has index `target` in the record
+    let build = |id_len: usize, seq_len: usize| -> (Vec<u8>, usize) {
+        let mut r = Vec::with_capacity(2 * seq_len + id_len + 16);
+        r.push(if c.format == Format::Fasta { b'>' } else { b'@' });
+        r.extend((0..id_len).map(|k| b"longrecord"[k % 10]));
+        r.extend_from_slice(t);
+        let head_end = r.len() - 1;
+        r.extend((0..seq_len).map(|k| b"ACGT"[k & 3]));
+        r.extend_from_slice(t);
+        let seq_end = r.len() - 1;
+        let (mut plus, mut sep_end, mut qual_end) = (seq_end, seq_end, seq_end);
+        if c.format == Format::Fastq {
+            r.push(b'+');
+            plus = r.len() - 1;
+            r.extend_from_slice(t);
+            sep_end = r.len() - 1;
+            r.resize(r.len() + seq_len, b'I');
+            r.extend_from_slice(t);
+            qual_end = r.len() - 1;
+        }
+        let at = match c.boundary % 5 {
+            0 => seq_end,
+            1 => plus,
+            2 => sep_end,
+            3 => qual_end,
+            _ => head_end,
+        };
+        (r, at)
+    };
+    let (id_len, seq_len) = if c.boundary % 5 == 4 {
+        // header-line terminator: solve for the id length, with a sequence that is long as well
+        let (_, at) = build(10, 100);
+        (10 + target.saturating_sub(at), 100 + size / 8)
+    } else {
+        let (_, at) = build(10, 100);
+        let slope = if c.format == Format::Fastq && c.boundary % 5 == 3 { 2 } else { 1 };
+        (10, 100 + target.saturating_sub(at) / slope)
+    };
+    let (long, _) = build(id_len, seq_len);
+    let mut v = Vec::with_capacity(long.len() + 200);
+    for i in 0..c.before as usize {
+        small(&mut v, i);
+    }
+    v.extend_from_slice(&long);
+    for i in 0..c.after as usize {
+        small(&mut v, 10 + i);
+    }
+    v
+}
+
+pub struct AlignedLarge(pub Format);
+
+impl Prop for AlignedLarge {
+    type Case = AlignedCase;
+    fn strategy(&self, _tier: Tier) -> BoxedStrategy<AlignedCase> {
+        let f = self.0;
+        boxed(
+            (prop_oneof![3 => Just(65536usize), 1 => Just(100_000usize), 1 => Just(1usize << 17), 1 => 65_537usize..70_000], 0u8..3, 0u8..5, -3i8..=3, prop::bool::weighted(0.7), 0u8..3, 0u8..3, prop_oneof![2 => Just(0u16), 1 => Just(4097u16), 1 => Just(65535u16), 1 => 1000u16..9000], any::<bool>())
+                .prop_map(move |(cap, doublings, boundary, delta, crlf, before, after, chunk, sets)| AlignedCase { format: f, cap, doublings, boundary, delta, crlf, before, after, chunk, sets }),
+        )
+    }
+    fn check(&self, c: &AlignedCase, ctx: &mut Ctx) -> CheckResult {
+        let doc = aligned_doc(c);
+        let m = Model::build(c.format, &doc);
+        ensure!(m.recs.len() == c.before as usize + c.after as usize + 1 && m.term == crate::model::Terminal::End, "harness/aligned-doc", "harness: document does not model as expected ({} records, {:?})", m.recs.len(), m.term);
+        ctx.nontrivial(c, c);
+        ctx.class(match c.boundary % 5 {
+            0 => "buffer end at the terminator of the (long) sequence line",
+            1 => "buffer end at the '+'",
+            2 => "buffer end at the terminator of the separator line",
+            3 => "buffer end at the terminator of the quality line",
+            _ => "buffer end at the terminator of the (long) header line",
+        });
+        if c.crlf && c.delta == 0 {
+            ctx.class("buffer full exactly between CR and LF (or on the LF)");
+        }
+        let script = Script { chunks: if c.chunk == 0 { vec![] } else { vec![c.chunk] }, ..Default::default() };
+        let r = read_all(c.format, &doc, c.cap, PolKind::Std, &script, if c.sets { Mode::Sets } else { Mode::Next }, m.recs.len() + 4);
+        crate::interp_livelock(&r.src, c.format)?;
+        compare(&m, &r.outs, false).map_err(|f| crate::engine::Failure::new(f.sig.replace("/read/", "/read-aligned-large/"), f.msg))
+    }
+}
